@@ -88,6 +88,11 @@ CHECKS = {
         "Every byte prefix of three valid files; for every JSON path 15 replacement values + delete/rename/unknown key; every JSON value of a depth-3 grammar as document / node record / children map; undecodable bytes; OSError at open/read/close: load must succeed or raise PersistenceReadError. Missing file is created and loads back; empty file = empty registry.",
         "In-memory file system behind aiofiles.threadpool.sync_open; locale encoding C.UTF-8.",
         "5/C14"),
+    "C15": ("E2", "fault_enumeration",
+        "exhaustive crash-point enumeration over the raw file-operation log of a real save (every op prefix, every byte of every raw write), each crash state re-loaded by the real code",
+        "For every ordered pair of 3 (quick) / 5 (thorough, incl. a 30 KB one) registries the real Persistence.save runs over an in-memory file system that logs raw operations of CPython's real buffered text stack; the file system after every prefix of that log and after every byte of each raw write is loaded by the real Persistence.load and must equal old or new. Two crash classes are open known findings (truncate-in-place); any other class is reported.",
+        "Process-crash model (no power loss). In-memory file system behind aiofiles.threadpool.sync_open.",
+        "5/C15"),
     "C19": ("E1", "model_checking",
         "differential explicit-state BFS over the product of two real gateways (old, new protocol)",
         "8 version pairs; every internal/stream type of the older table x 3 payloads in 3-7 base states, and all histories to depth 4 (quick) / 6 (thorough) of lines and send calls; outcome, writes and registry must agree per step.",
